@@ -53,7 +53,9 @@ class Scratch:
         for name, content in self.files.items():
             p = os.path.join(self.dir, name)
             os.makedirs(os.path.dirname(p), exist_ok=True)
-            if isinstance(content, str):
+            if isinstance(content, dict) and "__symlink__" in content:
+                os.symlink(content["__symlink__"], p)        # a linked directory (a shared asset tree linked into the project)
+            elif isinstance(content, str):
                 with open(p, "w", encoding="utf-8", newline="") as f:
                     f.write(content)
             else:
